@@ -117,6 +117,8 @@ def fresh_gin():
     del sys.modules[m]
   if REPO not in sys.path:
     sys.path.insert(0, REPO)
+  import logging
+  logging.disable(logging.CRITICAL)
   import gin  # pylint: disable=g-import-not-at-top
   assert os.path.realpath(gin.__file__).startswith(os.path.realpath(REPO)), gin.__file__
   return gin
